@@ -881,6 +881,108 @@ func c12OracleQuirk(posix bool, ts []string) bool {
 	return hasCase && forNLin
 }
 
+// caseClause derives a case clause; lastOpen: the last item has no `;;`.
+func (g c12Gen) caseClause(d int, lastOpen bool) []string {
+	out := append(append(append([]string{"case", g.word()}, g.nls(10)...), "in"), g.nls(20)...)
+	n := 1 + g.r.Intn(2)
+	for i := 0; i < n; i++ {
+		if g.r.Chance(25) {
+			out = append(out, "(")
+		}
+		out = append(out, g.word())
+		for g.r.Chance(20) {
+			out = append(out, "|", g.word())
+		}
+		out = append(out, ")")
+		last := i == n-1
+		switch g.r.Intn(5) {
+		case 0: // empty body
+			out = append(out, g.nls(30)...)
+		case 1: // body ends with a compound command: no separator needed before esac
+			out = append(out, g.compound(d)...)
+		default:
+			out = append(out, g.andOr(d)...)
+			if g.r.Bool() {
+				out = append(out, ";")
+			} else {
+				out = append(out, "NL")
+			}
+		}
+		if !last || !lastOpen {
+			out = append(append(out, ";;"), g.nls(30)...)
+		}
+	}
+	return append(out, "esac")
+}
+
+// nestedCase: a case clause (usually with an unterminated last item) inside the constructs that
+// change the parser's nesting state or end with a closing token: ( ), a function body in ( ),
+// { }, if, while, for, another case item — optionally followed by more of the enclosing list.
+func (g c12Gen) nestedCase(d int) []string {
+	cc := g.caseClause(d, g.r.Chance(70))
+	tail := func() []string {
+		var t []string
+		if g.r.Chance(35) {
+			t = append(t, g.sep()...)
+			t = append(t, g.andOr(0)...)
+		}
+		return t
+	}
+	closeSep := func() []string {
+		if g.r.Bool() {
+			return []string{";"}
+		}
+		return []string{"NL"}
+	}
+	var out []string
+	switch g.r.Intn(8) {
+	case 0, 1:
+		out = append(append(append([]string{"("}, cc...), tail()...), ")")
+	case 2:
+		out = append(append(append([]string{"W", "(", ")", "("}, cc...), tail()...), ")")
+	case 3:
+		out = append(append(append(append([]string{"{"}, cc...), tail()...), closeSep()...), "}")
+	case 4:
+		out = append(append(append(append([]string{"if"}, cc...), closeSep()...), "then"), cc...)
+		out = append(append(out, closeSep()...), "fi")
+	case 5:
+		out = append(append(append(append([]string{"while", "W", ";", "do"}, cc...), tail()...), closeSep()...), "done")
+	case 6:
+		out = append(append(append([]string{"case", "W", "in", "W", ")"}, cc...), tail()...), ";;", "esac")
+	default:
+		out = append(append([]string{"(", "("}, cc...), ")", ")")
+	}
+	if g.r.Chance(30) {
+		out = append(append(out, g.sep()...), g.andOr(0)...)
+	}
+	return out
+}
+
+var c12Closers = []string{";;", ")", "}", "fi", "done", "esac", "then", "do", "else", "elif"}
+
+// c12Stray puts a closing token after a complete statement: at the end of the list, or after one
+// of its separators, optionally followed by a word.
+func c12Stray(r *Rand, ts []string) []string {
+	var at []int
+	for i, t := range ts {
+		if t == ";" || t == "NL" || t == "&" {
+			at = append(at, i+1)
+		}
+	}
+	at = append(at, len(ts))
+	i := at[r.Intn(len(at))]
+	ins := []string{r.Pick(c12Closers)}
+	if i == len(ts) && i > 0 && ts[i-1] != ";" && ts[i-1] != "NL" && ts[i-1] != "&" && r.Chance(70) {
+		ins = append([]string{r.Pick([]string{";", "NL"})}, ins...)
+	}
+	if r.Chance(40) {
+		ins = append(ins, "W")
+	}
+	out := append([]string(nil), ts[:i]...)
+	out = append(out, ins...)
+	return append(out, ts[i:]...)
+}
+
 // c12Mutate applies one token-level insertion, deletion, replacement or swap.
 func c12Mutate(r *Rand, ts []string) []string {
 	out := append([]string(nil), ts...)
@@ -1054,7 +1156,7 @@ func c12(c *Ctx) {
 	}
 	c.Rule = "token lists over {W Q A > if then elif else fi while until do done for in case esac { } ! ( ) ; & && || | ;; NL}: " +
 		"corpus; all lists up to length 3 (quick) / 4, and all lists of length 5-6 over {W > if then else fi { } ( ) ; |} (thorough, sharded); programs derived from the core grammar (depth<=3) and 1-2 token " +
-		"insertions/deletions/replacements/swaps of them; each rendered with random spellings per class; both LangBash and LangPOSIX; " +
+		"insertions/deletions/replacements/swaps of them; case clauses with an unterminated last item nested in ( ) / f() ( ) / { } / if / while / case; a closing token (;; ) } fi done esac …) placed after a complete statement; each rendered with random spellings per class; both LangBash and LangPOSIX; " +
 		"non-trivial = accepted by the Go parser, or a mutant of a derived program (the exhaustive short lists are counted as trivial)"
 	g := c12Gen{c.R}
 	var cases []c12Case
@@ -1120,6 +1222,9 @@ func c12(c *Ctx) {
 					gres := c12Go(lang, src)
 					c.Op("acc "+c12LangName(posix)+" "+strings.Join(ts, " "), gres)
 					c.Case("x", false, "exhaustive")
+					if gres != c12Model(c12GoCfg(posix), ts) && len(cases) < 400 {
+						add("exhaustive", posix, ts, false, true)
+					}
 					if gres == "acc" {
 						c.Hist["exhaustive-accepted"]++
 					}
@@ -1143,8 +1248,16 @@ func c12(c *Ctx) {
 	}
 	// 3. grammar-derived programs and their mutations.
 	for i := 0; i < c.N; i++ {
-		ts := g.program(c.R.Intn(4))
+		var ts []string
+		if c.R.Chance(12) {
+			ts = g.nestedCase(c.R.Intn(2))
+		} else {
+			ts = g.program(c.R.Intn(4))
+		}
 		posix := c.R.Bool()
+		if c.R.Chance(20) {
+			add("stray", c.R.Bool(), c12Stray(c.R, ts), false, c.R.Chance(40))
+		}
 		add("program", posix, ts, false, c.R.Chance(30))
 		if c.R.Chance(30) {
 			add("program", !posix, ts, false, false)
@@ -1157,11 +1270,28 @@ func c12(c *Ctx) {
 			add("mutant", c.R.Bool(), m, false, c.R.Chance(30))
 		}
 	}
-	// shells: corpus first, then as many sampled cases as the budget allows.
+	// shells: corpus first; every case on which the real parser and the transliteration of the
+	// parser as modelled disagree (the tie is about to break: the shell then decides whether the
+	// code or the model is wrong, and a concrete failing input is reported); then as many sampled
+	// cases as the budget allows.
+	goRes := make([]string, len(cases))
 	var jobs []int
+	sampled := 0
 	for i, cs := range cases {
-		if cs.shell && (cs.known || len(jobs) < shellBudget) {
+		lang := syntax.LangBash
+		if cs.posix {
+			lang = syntax.LangPOSIX
+		}
+		goRes[i] = c12Go(lang, cs.src)
+		switch {
+		case cs.known || cs.kind == "corpus":
 			jobs = append(jobs, i)
+		case goRes[i] != c12Model(c12GoCfg(cs.posix), cs.ts) && len(jobs) < 4*shellBudget:
+			jobs = append(jobs, i)
+			c.Hist["shell-because-tie-differs"]++
+		case cs.shell && sampled < shellBudget:
+			jobs = append(jobs, i)
+			sampled++
 		}
 	}
 	dir := scratchDir(c)
@@ -1186,7 +1316,7 @@ func c12(c *Ctx) {
 		}
 		ln := c12LangName(cs.posix)
 		toks := strings.Join(cs.ts, " ")
-		gres := c12Go(lang, cs.src)
+		gres := goRes[i]
 		c.Op("acc "+ln+" "+toks, gres)
 		// the transliteration against the Lean parser, for a random rule-variant vector
 		cfg := c12Cfg{posix: c.R.Bool(), elseInCmd: c.R.Bool(), rsrvAfterIO: c.R.Bool(), bangAlone: c.R.Bool(),
@@ -1239,7 +1369,7 @@ func c12(c *Ctx) {
 				}
 			}
 		}
-		c.Case(ln+" "+toks, gres == "acc" || cs.kind == "mutant", tags...)
+		c.Case(ln+" "+toks, gres == "acc" || cs.kind == "mutant" || cs.kind == "stray", tags...)
 	}
 }
 
